@@ -14,6 +14,8 @@ type Policy struct {
 	TimersFirst bool   `json:"timers_first"`
 	Wedge       bool   `json:"wedge"`
 	ExitFirst   bool   `json:"exit_first"`
+	SwapExits   bool   `json:"swap_exits"`
+	APILast     bool   `json:"api_last"`
 	// Batch: stimuli of one instant all land before any goroutine they woke runs.
 	Batch bool `json:"-"`
 }
@@ -38,6 +40,21 @@ var policies = func() []Policy {
 				}
 			}
 		}
+	}
+	// the API goroutine woken by a reply runs after everything else due at that instant
+	for _, batch := range []bool{true, false} {
+		for _, exit := range []bool{false, true} {
+			for _, tf := range []bool{true, false} {
+				ps = append(ps, Policy{APILast: true, TimersFirst: tf, ExitFirst: exit, Batch: batch,
+					Name: fmt.Sprintf("api-last,timers=%v,exit=%v,batch=%v", tf, exit, batch)})
+			}
+		}
+	}
+	// a worker's select with its context and the client's Done both ready takes the other one
+	for _, p := range ps {
+		p.SwapExits = true
+		p.Name += ",swap-exits"
+		ps = append(ps, p)
 	}
 	return ps
 }()
